@@ -141,6 +141,10 @@ def rainfall_partition(
 
             cn = round(CNbot + (CNtop - CNbot) * wet_top)
 
+        # A curve number of 100 means no retention at all; field management
+        # adjustments cannot raise it further
+        cn = min(cn, 100)
+
         # Partition rainfall into runoff and infiltration (mm)
         S = (25400 / cn) - 254
         term = precipitation - ((5 / 100) * S)
